@@ -26,6 +26,7 @@ RULE = ("Hypothesis: mido files with ticks_per_beat from {24,48,96,120,192,240,3
         "the target sequence within 1/2 tick with its value, every signature on the target is one of the file's (an extra 4/4 "
         "at tick 0 is tolerated when none lands there), none elsewhere. Non-trivial: real rounding (tpb does not divide "
         "24*tick for some event), >= 2 tracks, and a group of >= 2 tracks or a track outside all groups. Distinct by digest.")
+RULE = RULE + " Rounds e-g: a second load of the same parsed MidiFile, pitch-wheel / aftertouch / poly-pressure / sysex runs carrying delta time, explicit groups with the default meta selection."
 ASSUMPTIONS = ["mido's message and file model is trusted", "notes shorter than 1.5 library ticks are not generated (rounding may annihilate them)"]
 TIERS = {"quick": dict(shards=8, examples=300), "thorough": dict(shards=16, examples=4000)}
 
@@ -121,6 +122,10 @@ def _case(draw):
                 "via_file": draw(st.integers(0, 3)) == 0, "defaults": True}
     case = {"tpb": tpb, "tracks": tracks, "groups": groups, "meta": meta, "target": draw(st.integers(0, len(groups) - 1)),
             "via_file": draw(st.integers(0, 3)) == 0}
+    if draw(st.integers(0, 4)) == 0:
+        # explicit groups, meta selection left at its default (= every track of the file is considered for signatures)
+        case["meta_default"] = True
+        case["meta"] = list(idx)
     if not case["via_file"] and draw(st.integers(0, 3)) == 0:
         # the parsed file object was already loaded once with the default grouping (several groupings of one parsed file)
         case["loaded_before"] = True
@@ -216,7 +221,7 @@ def check(case):
                 path = os.path.join(d, "case.mid")
                 mido_file.save(path)
                 loaded = Sequence.sequences_load(file_path=path, track_indices=None if case.get("defaults") else [list(g) for g in groups],
-                                                 meta_track_indices=None if case.get("defaults") else list(meta_idx),
+                                                 meta_track_indices=None if case.get("defaults") or case.get("meta_default") else list(meta_idx),
                                                  target_meta_track_index=target)
         else:
             mf = MidiFile()
@@ -225,7 +230,7 @@ def check(case):
                 out.label("second-load-of-parsed-file")
                 Sequence.sequences_load(midi_file=mf)
             loaded = Sequence.sequences_load(midi_file=mf, track_indices=None if case.get("defaults") else [list(g) for g in groups],
-                                             meta_track_indices=None if case.get("defaults") else list(meta_idx),
+                                             meta_track_indices=None if case.get("defaults") or case.get("meta_default") else list(meta_idx),
                                              target_meta_track_index=target)
     except Exception as e:
         out.fail(f"load-raises:{type(e).__name__}", f"{e}")
